@@ -56,7 +56,7 @@ def run(tier):
     switch_points(chk, F, bodies)
     rational_arm_series(chk, F, bodies)
     asymptotic_arm(chk, F, bodies)
-    approximant_grid(chk, F, bodies)
+    approximant_grid(chk, F, bodies, dense=(tier == "thorough"))
     purity(chk, F)
     # (2b) the operations bessel.rs is built from (+ - * / between dual numbers, the chain rule behind sqrt / sin / cos / recip) are
     # the operations of the truncated algebra: rule sets of C02 / C01, reused — purity reduces C14's derivative parts to exactly these
@@ -330,7 +330,7 @@ GRID = [Fr(1, 2), Fr(1), Fr(3, 2), Fr(2), Fr(5, 2), Fr(3), Fr(7, 2), Fr(4), Fr(9
 GRID_TOL = Fr(1, 10 ** 16)
 
 
-def approximant_grid(chk, F, bodies):
+def approximant_grid(chk, F, bodies, dense=False):
     """the formula the analysis extracts for each arm (coefficient tables included, read from the facts) is evaluated at grid points on
     both sides in 60-digit arithmetic and compared with J_n from its exact Maclaurin series: the tables ARE approximations of J_n"""
     from ..domq import DomQ, bessel_ref, to_d
@@ -340,7 +340,13 @@ def approximant_grid(chk, F, bodies):
         if body is None:
             continue
         worst, where, bad, n_pts = 0, None, [], 0
-        for x in GRID:
+        grid = list(GRID)
+        if dense:
+            # thorough tier: step 1/10 over (0, 60], the neighbourhoods of both switch points, and tiny arguments
+            grid = sorted(set(grid) | {Fr(k, 10) for k in range(1, 601)} | {Fr(5) - Fr(1, 10 ** k) for k in (3, 6, 9, 12)} |
+                          {Fr(5) + Fr(1, 10 ** k) for k in (3, 6, 9, 12)} | {Fr(1, 10 ** 5) * (1 + Fr(s_, 1000)) for s_ in (-1, 1)} |
+                          {Fr(1, 10 ** k) for k in (2, 3, 4, 6, 9, 20)})
+        for x in grid:
             for sgn in (1, -1):
                 xv = to_d(x * sgn)
 
